@@ -1430,3 +1430,24 @@ V("C04", "benign_trigger_merge_loop_form", "benign", None, (Z, """            se
             ]""", """            for w in watchers:
                 if not any(w is queued for queued in self_._state_watchers):
                     self_._state_watchers.append(w)"""))
+
+# rx cache model
+V("C09", "invalidate_current_keeps_clean_flag", "fire", "R09.i", (R, """            return
+        self._dirty = True
+        self._error_state = None
+
+    def _invalidate_obj""", """            return
+        self._error_state = None
+
+    def _invalidate_obj"""))
+V("C09", "resolve_returns_cache_while_root_dirty", "fire", "R09.i", (R, """        elif self._dirty or self._root._dirty_obj:
+            try:
+                obj = self._obj if self._prev is None else self._prev._resolve()""", """        elif self._dirty and not self._root._dirty_obj:
+            try:
+                obj = self._obj if self._prev is None else self._prev._resolve()"""))
+V("C09", "benign_invalidate_current_positive_form", "benign", None, (R, """        if all(event.obj is self._trigger for event in events):
+            return
+        self._dirty = True
+        self._error_state = None""", """        if not all(event.obj is self._trigger for event in events):
+            self._dirty = True
+            self._error_state = None"""))
